@@ -96,6 +96,12 @@ def gen_cases(tier):
 
 
 def decode_ok(qr, payload_bytes, acc, case, what):
+    if callable(qr):
+        try:
+            qr = qr()
+        except Exception as e:
+            acc.violation('symbol-exception/' + what, '%s factory raised %s: %s' % (what, C.exc_name(e), str(e)[:80]), case)
+            return
     rep = C.read(qr)
     bad = [p for p in rep.problems if C.classify_problem(p) != 'remainder-bits']
     if bad or rep.payload != payload_bytes:
@@ -128,7 +134,7 @@ def wifi_one(ssid, password, security, hidden, acc, symbol=False):
     if not good:
         acc.violation('wifi-fields', 'make_wifi_data(%r, %r, %r, %r) = %r parses to %r (%s), supplied %r' % (ssid, password, security, hidden, d, kv, prob, exp), case)
     if symbol:
-        decode_ok(helpers.make_wifi(ssid, password=password, security=security, hidden=hidden), exp_bytes(d), acc, case, 'wifi')
+        decode_ok(lambda: helpers.make_wifi(ssid, password=password, security=security, hidden=hidden), exp_bytes(d), acc, case, 'wifi')
 
 
 ME_KEYS = {'name': 'N', 'reading': 'SOUND', 'phone': 'TEL', 'videophone': 'TELAV', 'email': 'EMAIL', 'nickname': 'NICKNAME', 'url': 'URL',
@@ -165,7 +171,7 @@ def mecard_one(kw, acc, symbol=False):
     if not good:
         acc.violation('mecard-fields', 'make_mecard_data(**%r) = %r parses to %r (%s), supplied %r' % (kw, d, kv, prob, exp), case)
     if symbol:
-        decode_ok(helpers.make_mecard(**kw), exp_bytes(d), acc, case, 'mecard')
+        decode_ok(lambda: helpers.make_mecard(**kw), exp_bytes(d), acc, case, 'mecard')
 
 
 VC_SINGLE = [('org', 'ORG'), ('nickname', 'NICKNAME'), ('source', 'SOURCE'), ('memo', 'NOTE')]
@@ -220,7 +226,7 @@ def vcard_one(kw, acc, symbol=False):
     if problems:
         acc.violation('vcard-lines', 'make_vcard_data(**%r): %s' % (kw, '; '.join(problems)[:300]), case)
     if symbol:
-        decode_ok(helpers.make_vcard(**kw), exp_bytes(d), acc, case, 'vcard')
+        decode_ok(lambda: helpers.make_vcard(**kw), exp_bytes(d), acc, case, 'vcard')
 
 
 def run_case(case, acc):
@@ -473,7 +479,12 @@ def epc_one(kw, acc, expect_refusal=False, symbol=True):
     if problems:
         acc.violation('epc-layout', '_make_epc_qr_data(**%r): %s' % (kw, '; '.join(problems)[:300]), case)
     if symbol:
-        qr = helpers.make_epc_qr(**kw)
+        try:
+            qr = helpers.make_epc_qr(**kw)
+        except Exception as e:
+            acc.violation('epc-symbol', 'make_epc_qr(**%r) raised %s (%s) although the same fields are accepted by the payload builder'
+                          % (kw, C.exc_name(e), str(e)[:80]), case)
+            return
         rep = C.read(qr)
         if qr.error != 'M' or rep.level != 'M' or qr.is_micro or not isinstance(qr.version, int) or qr.version > 13:
             acc.violation('epc-symbol', 'make_epc_qr symbol is %s (must be level M, version <= 13)' % qr.designator, case)
